@@ -221,6 +221,7 @@ class Driver:
             cur["timers_at_return"] = [(round(t - START, 3), fmt_path(be.path_of.get(i, ("?",))), k)
                                        for t, i, k in be.timers()]
             cur["outstanding_at_return"] = [fmt_path(be.path_of.get(i, ("?",))) for i in be.outstanding()]
+            cur["completed_during"] = [fmt_path(be.path_of.get(i, ("?",))) for i in be.async_changes]
             parked = []
             for pk in self.world.parked:
                 if pk["inv"] != cur["n"]:
